@@ -76,6 +76,7 @@ Inductive case :=
 | CResolve (its : list item) (r : res xerr (list item))
 | CSkeleton (cfg : list (str * scfg)) (doc : list item) (r : res perr (list odecl))
 | CGen (cfg : list (str * scfg)) (files : list (list item)) (builtins : list item) (r : ogen_result)
+| CPlugin (exts : list (str * xext)) (out : option str) (variants : N)
 | CDet (how : N) (digests : list N)
 | CPerm (v1 v2 : str) (c1 c2 : list (str * N))
 | CPermV (v1 v2 : str) (k1 k2 : list (str * N))    (* verdict stage and multiset of diagnostic kinds of two arrangements *)
@@ -155,6 +156,9 @@ Definition agree (c : case) : bool :=
   | CGen cfg files builtins r =>
       gen_agree (gen o_id o_id (hm_collect cfg) files builtins) r
       && gen_agree (gen o_rot o_rev (hm_collect cfg) files builtins) r
+  | CPlugin exts out _ =>
+      option_eqb str_eqb (plugin_schema_addition o_id o_id (hm_collect exts)) out
+      && option_eqb str_eqb (plugin_schema_addition o_rev o_rot (hm_collect exts)) out
   | CDet _ _ | CPerm _ _ _ _ | CPermV _ _ _ _ | CLibCli _ _ _ _ => true
   end.
 
@@ -164,12 +168,6 @@ Fixpoint all_equal (l : list N) : bool :=
   match l with
   | a :: ((b :: _) as r) => N.eqb a b && all_equal r
   | _ => true
-  end.
-
-Fixpoint nodup_first (seen l : list str) : list str :=
-  match l with
-  | [] => []
-  | x :: r => if existsb (str_eqb x) seen then nodup_first seen r else x :: nodup_first (x :: seen) r
   end.
 
 Fixpoint sorted_by_pos (l : list adef) : bool :=
@@ -253,11 +251,12 @@ Definition holds (c : case) : bool :=
   match c with
   | CSchema defs fid probes it0 get0 it1 get1 variants =>
       (* iteration follows first insertion; a deterministic result whenever the renaming is injective *)
-      strs_eqb (map fst it0) (nodup_first [] (map d_name defs))
+      strs_eqb (map fst it0) (dedup [] (map d_name defs))
       && (if f_injective fid then N.eqb variants 1 else true)
   | CResolve its r => holds_resolve its r
   | CSkeleton _ doc r => holds_skeleton doc r
   | CGen _ _ _ _ => true
+  | CPlugin _ _ variants => N.eqb variants 1          (* the same text whatever the hash order *)
   | CDet _ digests => all_equal digests
   | CPerm v1 v2 c1 c2 =>
       str_eqb v1 v2 && (if str_eqb v1 (s "ok") then list_eqb (pair_eqb str_eqb N.eqb) c1 c2 else true)
